@@ -33,7 +33,7 @@ certificate (bit flip in TBS bytes, bit flip in signature value, sibling issuer 
 key, time just outside the window, AKI replaced and re-signed, SKI replaced in the TBS by DER patching and re-signed \
 with the issuer key, one claimed block replaced by one outside the issuer, notBefore/notAfter swapped in the TBS \
 (empty window) and re-signed, evaluated between the ends); oracle = rejected, except block tamper \
-under trim = accepted with the intersection; every tamper case is non-trivial.";
+under trim = accepted with the intersection; every tamper case is non-trivial. Alternative routes: every verdict is also obtained through inspect_*(strict) followed by verify_*_at and, for trust anchors, verify_ta_ref_at - same accept/reject, same resources; the claimed resources reach the certificate through one of four public routes chosen by the serial number (closure builders, *_from_iter, ready-made IpResources/AsResources values incl. missing()/inherit(), resource builders obtained through Default).";
 
 //------------ private interval-set model ---------------------------------------
 
